@@ -130,7 +130,14 @@ def bounds(tier):
                                                                      c["banded_extra_maxnum_fams"]),
             "thresholds": list(THRESHOLDS), "directions": list(DIRECTIONS),
             "seeds": "every in-range seed; out-of-range frame -1..len in each coordinate must raise",
-            "max_table_size": [None, 1, 10], "code_width_pairs": 15, "width_len": c["width_len"]}
+            "max_table_size": [None, 1, 10], "code_width_pairs": 15, "width_len": c["width_len"],
+            "long": {"lengths_each_sequence": LONG_LENS[tier], "initial_table_capacity_assumed": LONG_INIT,
+                     "gaps": [I.gap_json(g) for g in LONG_GAPS], "thresholds": list(LONG_THRESHOLDS),
+                     "seeds": "start, middle, end" + (" + 2 off-corner" if tier == "thorough" else ""),
+                     "max_table_size": "None; largest refused / smallest accepted value found by bisection between "
+                                       "(cells of the fully explored region) - 1 and 4 x that",
+                     "also": "align_local_ungapped (uint8 fast path and uint16 generic path) and align_banded "
+                             "(local, semi-global linear; full / narrow / partly outside band) on the same pairs"}}
 
 
 def _npairs(k, ln, long_only):
@@ -143,11 +150,43 @@ def _npairs(k, ln, long_only):
     return a * b
 
 
+# --- size-switch family -----------------------------------------------------------------
+# align_local_gapped starts with tables of at most LONG_INIT x LONG_INIT cells (INIT_SIZE in localgapped.pyx) and
+# grows them while it extends; region = part of a sequence before / behind the seed.  A region of length r needs
+# r + 1 rows (columns): lengths 99 | 100 straddle the switch, >= 200 needs a second growth step.
+LONG_INIT = 100
+LONG_LENS = {"quick": [100, 101, 102, 205], "thorough": [99, 100, 101, 102, 150, 205]}
+LONG_GAPS = [-2, (-3, -1)]
+LONG_THRESHOLDS = (10**6, 6)
+LONG_PATTERN = (0, 0, 1, 0, 1, 1, 0, 1, 1, 1, 0)
+
+
+def long_letters(n, which):
+    """Sequence 1: an 11-periodic pattern; sequence 2: the same with 6 substitutions, one deletion (before
+    position 100) and one insertion (behind it), so that the best alignment leaves the main diagonal twice."""
+    base = [LONG_PATTERN[i % len(LONG_PATTERN)] for i in range(n + 8)]
+    if which == 2:
+        for pos in (20, 64, 99, 100, 140, 180):
+            base[pos % len(base)] ^= 1
+        del base[37]
+        base.insert(120 % len(base), 1 - base[120 % len(base)])
+    return tuple(base[:n])
+
+
+def long_seeds(n, m, tier):
+    sd = [(0, 0), (n // 2, min(m - 1, n // 2)), (n - 1, m - 1)]
+    if tier == "thorough":
+        sd += [(2, 1), (n - 3, m - 2)]
+    return sd
+
+
 def shards(tier, seed):
     c = _cfg(tier)
     variant = seed % 3
     embed = seed % 4
     out = []
+    for n in LONG_LENS[tier]:
+        out.append({"kind": "long", "n": n, "variant": variant, "embed": embed})
     per = {"banded": 12, "gapped": 24, "ungapped": 75}
     for kind in ("banded", "gapped", "ungapped"):
         for gi, g in enumerate(c[kind]):
@@ -170,7 +209,7 @@ def shards(tier, seed):
                 continue
             out.append({"kind": "width", "dtypes": [d1, d2], "variant": variant, "embed": embed})
     out.append({"kind": "refuse", "variant": variant, "embed": embed})
-    order = {"banded": 0, "gapped": 1, "width": 2, "ungapped": 3, "refuse": 4}
+    order = {"long": -1, "banded": 0, "gapped": 1, "width": 2, "ungapped": 3, "refuse": 4}
     out.sort(key=lambda s: order[s["kind"]])
     return out
 
@@ -607,8 +646,12 @@ def check_ungapped(ctx, env, l1, l2, seed, threshold, direction):
     c1, c2 = env.codes(1, l1), env.codes(2, l2)
     s1, s2 = env.seq(1, l1), env.seq(2, l2)
     n, m = len(c1), len(c2)
-    case = {"kind": "ungapped", **env.describe(), "s1": list(l1), "s2": list(l2), "seed": list(seed),
-            "threshold": threshold, "direction": direction}
+    if n > 50:
+        case = {"kind": "ungapped", **env.describe(), "n": n, "m": m, "seed": list(seed), "threshold": threshold,
+                "direction": direction}
+    else:
+        case = {"kind": "ungapped", **env.describe(), "s1": list(l1), "s2": list(l2), "seed": list(seed),
+                "threshold": threshold, "direction": direction}
     cls = direction
     ctx.ev(2, 0)
 
@@ -688,6 +731,281 @@ def run_ungapped(shard, ctx):
                 for sd in frame_seeds(n, m):
                     check_bad_seed(ctx, env, "align_local_ungapped", l1, l2, sd, {})
     _mutated(ctx, env, "align_local_ungapped")
+
+
+# ---------------------------------------------------------------------------
+# size switch: tables that have to grow (align_local_gapped), long inputs for the other two
+# ---------------------------------------------------------------------------
+def _long_opt(env, c1, c2, gap, seed, direction):
+    from mc.models import align as A
+
+    memo = env.__dict__.setdefault("_memo_long", {})
+    i0, j0 = seed
+    total = env.mat[c1[i0]][c2[j0]]
+    regions = []
+    # an upstream region without symbols in one of the sequences cannot be extended into (only gaps: 0)
+    if direction in ("both", "upstream") and i0 > 0 and j0 > 0:
+        regions.append((tuple(reversed(c1[:i0])), tuple(reversed(c2[:j0]))))
+    if direction in ("both", "downstream"):
+        regions.append((tuple(c1[i0 + 1:]), tuple(c2[j0 + 1:])))
+    for p1, p2 in regions:
+        k = (p1, p2, gap)
+        v = memo.get(k)
+        if v is None:
+            v = memo[k] = A.dp_opt(p1, p2, env.mat, gap, "prefix")
+        total += v
+    return total, [(len(a), len(b)) for a, b in regions]
+
+
+def _growth_class(regions):
+    """Which table dimensions have to grow when the regions are explored completely."""
+    rows = any(a + 1 > LONG_INIT for a, b in regions)
+    cols = any(b + 1 > LONG_INIT for a, b in regions)
+    twice = any(a + 1 > 2 * LONG_INIT or b + 1 > 2 * LONG_INIT for a, b in regions)
+    exact = any(a + 1 == LONG_INIT or b + 1 == LONG_INIT for a, b in regions)
+    if twice:
+        return "grow_twice"
+    if rows and cols:
+        return "grow_rows_and_columns"
+    if rows:
+        return "grow_rows_only"
+    if cols:
+        return "grow_columns_only"
+    return "exact_fit_no_growth" if exact else "no_growth"
+
+
+def check_long_gapped(ctx, env, l1, l2, seed, threshold, gap, direction):
+    import biotite.sequence.align as balign
+
+    from mc.models import align as A
+    from mc.models import align_inputs as I
+
+    c1, c2 = env.codes(1, l1), env.codes(2, l2)
+    s1, s2 = env.seq(1, l1), env.seq(2, l2)
+    n, m = len(c1), len(c2)
+    case = {"kind": "long_gapped", **env.describe(), "n": n, "m": m, "seed": list(seed), "threshold": threshold,
+            "gap": I.gap_json(gap), "direction": direction}
+    if not ctx.journal(json.dumps(case)):
+        return
+    opt, regions = _long_opt(env, c1, c2, gap, seed, direction)
+    grow = _growth_class(regions)
+    cls = "%s|%s|%s" % (direction, I.gap_class(gap), grow)
+    ctx.ev(2, 0)
+
+    def viol(fm, what, expected=None, observed=None):
+        ctx.violation("align_local_gapped|%s|%s" % (fm, cls), what, case, expected, observed)
+
+    def call(score_only=False, mts=None):
+        return balign.align_local_gapped(s1, s2, env.matrix, seed, threshold, gap_penalty=gap, max_number=2,
+                                         direction=direction, score_only=score_only, max_table_size=mts)
+
+    try:
+        res = call()
+        so = call(score_only=True)
+    except Exception as e:  # noqa: BLE001
+        viol("exception_%s" % type(e).__name__, "legal input raised %s: %s" % (type(e).__name__, str(e)[:200]))
+        return
+    ctx.count("accepted")
+    ctx.count("long_" + grow)
+    traces = _traces(res) if isinstance(res, list) and res else None
+    if not traces:
+        viol("no_result", "no alignment / malformed trace returned")
+        return
+    if len(res) > 2:
+        viol("too_many", "more alignments than max_number returned", 2, len(res))
+    sc0 = int(res[0].score)
+    for a, t in zip(res, traces):
+        sc = int(a.score)
+        prob = A.trace_problem(t, n, m, False)
+        if prob is not None:
+            viol("invalid_trace", "returned trace is not a valid alignment: " + prob, None, _cols_json(t)[:12])
+            return
+        r = _seed_checks(t, seed, direction)
+        if r is not None:
+            viol(r[0], r[1], list(seed), _cols_json(t)[:12])
+            return
+        rs = A.score_cols(t, c1, c2, env.mat, gap, True)
+        if rs != sc:
+            viol("rescore_mismatch_reported_%s" % ("higher" if sc > rs else "lower"),
+                 "score recomputed from the returned trace differs from the reported score", sc, rs)
+            return
+        if sc > opt:
+            viol("score_above_optimum", "reported score exceeds the best seed-containing alignment (reference DP)",
+                 opt, sc)
+            return
+        if threshold >= 10**6 and sc != opt:
+            viol("threshold_cannot_bind_not_optimal", "threshold cannot bind but the optimum (reference DP) is not "
+                 "reached", opt, sc)
+            return
+    if int(so) != sc0:
+        viol("score_only_differs", "score_only=True returns another score than the full call", sc0, int(so))
+        return
+    ctx.ev(0, 1 if grow.startswith("grow") else 0)
+    ctx.outcome(("long", n, m, tuple(seed), direction, sc0, len(traces[0])))
+    if len(ctx.samples) < 1 and grow == "grow_twice" and _has_gap(traces[0]):
+        ctx.sample({**case, "regions": regions, "optimum_dp": opt, "score": sc0, "trace_length": len(traces[0]),
+                    "gap_columns": sum(1 for c in traces[0] if -1 in c)})
+    if threshold < 10**6:
+        return
+    # ---- table-size limit: the regions are explored completely, so a table needs >= (a+1)(b+1) cells
+    grown = [(a, b) for a, b in regions if a + 1 > LONG_INIT or b + 1 > LONG_INIT]
+    ref = ([int(x.score) for x in res], traces)
+
+    def probe(mts, score_only=False):
+        ctx.ev(1, 0)
+        try:
+            r = call(score_only=score_only, mts=mts)
+        except MemoryError:
+            return "MemoryError"
+        except Exception as e:  # noqa: BLE001
+            return "raised " + type(e).__name__
+        if score_only:
+            return "same" if int(r) == sc0 else "different"
+        return "same" if ([int(x.score) for x in r], _traces(r)) == ref else "different"
+
+    if not grown:
+        # no table has to grow: whether small tables are compared with the limit is unspecified
+        for mts in (1, LONG_INIT * LONG_INIT):
+            r = probe(mts)
+            ctx.count("unspecified_raised" if r == "MemoryError" else "unspecified_returned")
+            if r not in ("MemoryError", "same"):
+                viol("max_table_size_changes_result", "a max_table_size that does not raise MemoryError changes "
+                     "the result (%s)" % r, "MemoryError or the unlimited result", [mts, r])
+                return
+        return
+    must_raise_below = max((a + 1) * (b + 1) for a, b in grown)
+    must_work_from = 4 * max(max(a + 1, LONG_INIT) * max(b + 1, LONG_INIT) for a, b in regions)
+    lo, hi = must_raise_below - 1, must_work_from
+    r = probe(lo)
+    if r != "MemoryError":
+        viol("max_table_size_not_enforced", "a fully explored region needs more cells than max_table_size, but no "
+             "MemoryError is raised (%s)" % r, "MemoryError", [lo, r, regions])
+        return
+    r = probe(hi)
+    if r != "same":
+        viol("max_table_size_refuses_sufficient_limit", "max_table_size of 4x the explored cells does not give the "
+             "unlimited result (%s)" % r, "the unlimited result", [hi, r, regions])
+        return
+    while hi - lo > 1:  # lo raises, hi works
+        mid = (lo + hi) // 2
+        r = probe(mid)
+        if r == "MemoryError":
+            lo = mid
+        elif r == "same":
+            hi = mid
+        else:
+            viol("max_table_size_changes_result", "a max_table_size that does not raise MemoryError changes the "
+                 "result (%s)" % r, "MemoryError or the unlimited result", [mid, r])
+            return
+    # both sides of the switch, also without traceback tables; and monotone a little further out
+    for mts, want in ((lo, "MemoryError"), (hi, "same"), (max(1, lo - 1000), "MemoryError"), (hi + 1000, "same")):
+        for so_flag in (True, False):
+            r = probe(mts, score_only=so_flag)
+            if r != want:
+                viol("max_table_size_not_monotone", "limit %d gives %s although %d is the smallest accepted limit of "
+                     "the full call" % (mts, r, hi), want, [mts, so_flag, r, hi])
+                return
+    ctx.count("long_table_limit_boundaries_found")
+    ctx.outcome(("long_limit", n, m, tuple(seed), direction, I.gap_class(gap), hi))
+
+
+def check_banded_long(ctx, env, l1, l2, band, gap, local):
+    """align_banded on long inputs: validity, rescoring, band containment, reference DP as upper bound /
+    as exact value when the band covers every diagonal."""
+    import biotite.sequence.align as balign
+
+    from mc.models import align as A
+    from mc.models import align_inputs as I
+
+    c1, c2 = env.codes(1, l1), env.codes(2, l2)
+    n, m = len(c1), len(c2)
+    mode = "local" if local else "semi"
+    case = {"kind": "long_banded", **env.describe(), "n": n, "m": m, "band": list(band), "gap": I.gap_json(gap),
+            "local": local}
+    cls = "%s|%s|long" % (mode, I.gap_class(gap))
+    ctx.ev(1, 0)
+
+    def viol(fm, what, expected=None, observed=None):
+        ctx.violation("align_banded|%s|%s" % (fm, cls), what, case, expected, observed)
+
+    try:
+        res = balign.align_banded(env.seq(1, l1), env.seq(2, l2), env.matrix, band, gap_penalty=gap, local=local,
+                                  max_number=2)
+    except Exception as e:  # noqa: BLE001
+        viol("exception_%s" % type(e).__name__, "legal input raised %s" % type(e).__name__)
+        return
+    ctx.count("accepted")
+    traces = _traces(res) if res else None
+    if not traces:
+        viol("no_result", "no alignment / malformed trace returned")
+        return
+    memo = env.__dict__.setdefault("_memo_long", {})
+    k = ("banded", c1, c2, gap, mode)
+    opt = memo.get(k)
+    if opt is None:
+        opt = memo[k] = A.dp_opt(c1, c2, env.mat, gap, mode)
+    lo, hi = min(band), max(band)
+    full = lo <= -(n - 1) and hi >= m - 1
+    for a, t in zip(res, traces):
+        sc = int(a.score)
+        prob = A.trace_problem(t, n, m, False)
+        if prob is not None:
+            viol("invalid_trace", "returned trace is not a valid alignment: " + prob, None, _cols_json(t)[:12])
+            return
+        if local:
+            rs = [A.score_cols(t, c1, c2, env.mat, gap, True)]
+        else:
+            rs = [A.score_cols(comp, c1, c2, env.mat, gap, False) for comp in A.completions(t, n, m)]
+        if sc not in rs:
+            viol("rescore_mismatch_reported_%s" % ("higher" if sc > max(rs) else "lower"),
+                 "score recomputed from the returned trace differs from the reported score", sc, rs)
+            return
+        if sc > opt:
+            viol("score_above_optimum", "reported score exceeds the optimum (reference DP)", opt, sc)
+            return
+        if full and opt > 0 and sc != opt:
+            viol("full_band_not_optimal", "band covers every diagonal but the optimum (reference DP) is not reached",
+                 opt, sc)
+            return
+        for i, j in t:
+            if i != -1 and j != -1 and not (lo <= j - i <= hi):
+                viol("pair_outside_band", "paired positions lie on a diagonal outside the band", [lo, hi], [i, j])
+                return
+    ctx.ev(0, 1)
+    ctx.outcome(("long_banded", n, m, tuple(band), mode, int(res[0].score)))
+
+
+def run_long(shard, ctx):
+    from mc.models import align as A
+    from mc.models import align_inputs as I
+
+    # the DP used as oracle here must agree with the complete enumeration where both run
+    for p1 in I.sequences(2, 3):
+        for p2 in I.sequences(2, 3):
+            for g in LONG_GAPS + [-1, (-1, -2)]:
+                for mat in ([[2, -1], [-1, 2]], [[-1, -2], [-2, -1]]):
+                    if A.dp_opt(p1, p2, mat, g, "prefix") != A.extension_opt(p1, p2, mat, g):
+                        raise RuntimeError("reference models disagree (prefix DP vs enumeration)")
+    tier = ctx.tier
+    n = shard["n"]
+    env = I.Env(2, 2, "std", shard["variant"], shard["embed"])
+    env16 = I.Env(2, 2, "asym", shard["variant"], shard["embed"], "uint16", "uint8")
+    l1 = long_letters(n, 1)
+    for m in LONG_LENS[tier]:
+        l2 = long_letters(m, 2)
+        for seed in long_seeds(n, m, tier):
+            for direction in DIRECTIONS:
+                for gap in LONG_GAPS:
+                    for thr in LONG_THRESHOLDS:
+                        check_long_gapped(ctx, env, l1, l2, seed, thr, gap, direction)
+                for thr in (3, 10**6):
+                    check_ungapped(ctx, env, l1, l2, seed, thr, direction)      # uint8 fast path
+                    check_ungapped(ctx, env16, l1, l2, seed, thr, direction)    # generic path
+        if m in (LONG_LENS[tier][0], LONG_LENS[tier][-1]):
+            for band in ((-n, m), (-3, 3), (m - 5, m + 50), (-(n + 50), -(n - 5)), (-40, 1)):
+                for gap, local in ((-2, False), (-2, True), ((-3, -1), True)):
+                    check_banded_long(ctx, env, l1, l2, band, gap, local)
+    _mutated(ctx, env, "long")
 
 
 # ---------------------------------------------------------------------------
@@ -777,7 +1095,7 @@ def run_refuse(shard, ctx):
 
 
 def run_shard(shard, ctx):
-    {"banded": run_banded, "gapped": run_gapped, "ungapped": run_ungapped, "width": run_width,
+    {"long": run_long, "banded": run_banded, "gapped": run_gapped, "ungapped": run_ungapped, "width": run_width,
      "refuse": run_refuse}[shard["kind"]](shard, ctx)
 
 
@@ -787,6 +1105,8 @@ def crash_class(case):
             return "%s|seed_outside|%s" % (case.get("fn"), "negative" if min(case["seed"]) < 0 else "beyond_end")
         if case.get("kind") == "banded":
             return "align_banded|empty_sequence"
+        if case.get("kind") == "long_gapped":
+            return "align_local_gapped|long|%s" % case.get("direction")
     return "unclassified"
 
 
@@ -804,6 +1124,16 @@ def replay(case, ctx):
     k1, k2 = case["k"]
     d1, d2 = case.get("dtypes", ["uint8", "uint8"])
     env = I.Env(k1, k2, case["fam"], case["variant"], case["embed"], d1, d2)
+    if kind in ("long_gapped", "long_banded") or (kind == "ungapped" and "n" in case):
+        l1, l2 = long_letters(case["n"], 1), long_letters(case["m"], 2)
+        if kind == "long_gapped":
+            check_long_gapped(ctx, env, l1, l2, tuple(case["seed"]), case["threshold"], I.gap_from_json(case["gap"]),
+                              case["direction"])
+        elif kind == "long_banded":
+            check_banded_long(ctx, env, l1, l2, tuple(case["band"]), I.gap_from_json(case["gap"]), case["local"])
+        else:
+            check_ungapped(ctx, env, l1, l2, tuple(case["seed"]), case["threshold"], case["direction"])
+        return
     l1, l2 = tuple(case["s1"]), tuple(case["s2"])
     if kind == "banded":
         n, m = len(l1), len(l2)
